@@ -2528,8 +2528,13 @@ pub fn parse_ml_predict(input: &str) -> IResult<&str, MLPredictClause<'_>> {
 
     // Extract SELECT variables
     if let Some(select_idx) = input_query.find("SELECT") {
-        if let Some(where_idx) = input_query.find("WHERE") {
-            let select_clause = &input_query[select_idx + 6..where_idx].trim();
+        // The WHERE that belongs to this SELECT follows it; an earlier occurrence is not it.
+        let after_select = select_idx + "SELECT".len();
+        if let Some(where_idx) = input_query[after_select..]
+            .find("WHERE")
+            .map(|offset| after_select + offset)
+        {
+            let select_clause = &input_query[after_select..where_idx].trim();
             // Parse SELECT variables (simplified version - in real code you would use your actual SELECT parser)
             let vars: Vec<&str> = select_clause.split_whitespace().collect();
             for var in vars {
